@@ -27,6 +27,14 @@ TTermRet ==
     /\ IF T.name \in DOMAIN sv THEN T.err = "" /\ T.dur <= 300 ELSE T.err = "no_such_entity"
     /\ UNCHANGED sv /\ Adv
 
+\* the driver's observation 400 ms after a Terminate (made for behaviours with group members none of which ignores
+\* SIGTERM, at least 150 ms after the start): SIGTERM went to the whole group, so the members are gone -
+\* whether or not the leader was still there when the call was made
+TTermObs ==
+    /\ Is("TermObs")
+    /\ (T.name \in DOMAIN sv /\ sv[T.name].beh \notin Ignoring) => T.gone
+    /\ UNCHANGED sv /\ Adv
+
 TKillCall == Is("KillCall") /\ sv' = KillCallDo(sv, T.name, T.past) /\ Adv
 TKillRet ==
     /\ Is("KillRet")
@@ -66,7 +74,7 @@ Die ==
     /\ UNCHANGED <<l, steps, fake>>
 
 TraceInit == l = 1 /\ sv = <<>> /\ steps = 0 /\ fake = FALSE /\ TLCSet(1, 1)
-TraceNext == TBegin \/ TExecCall \/ TExecRet \/ TTermCall \/ TTermRet \/ TKillCall \/ TKillRet \/ TEvent \/ TEnd \/ Die
+TraceNext == TBegin \/ TExecCall \/ TExecRet \/ TTermCall \/ TTermRet \/ TTermObs \/ TKillCall \/ TKillRet \/ TEvent \/ TEnd \/ Die
 TraceSpec == TraceInit /\ [][TraceNext]_<<sv, steps, l, fake>>
 
 HighWater ==
